@@ -212,6 +212,10 @@ func linearB(v ssa.Value, depth int) linform {
 		return linearB(x.X, depth+1)
 	case *ssa.ChangeType:
 		return linearB(x.X, depth+1)
+	case *ssa.Parameter:
+		if as := boundArgs(x); len(as) == 1 && depth < 10 {
+			return linearB(as[0], depth+1)
+		}
 	case *ssa.UnOp:
 		if x.Op == token.MUL && depth < 10 {
 			var cell *ssa.Alloc
